@@ -232,6 +232,20 @@ def main(ctx):
                           'eat_blanks_after_open_brace': 'true' if (nm + mn) % 2 else 'false', 'eat_blanks_before_close_brace': 'true' if edge % 2 else 'false'}
                     registry.fix_nl_max(cd)
                     cases.append(family.Case(b'\n' * edge + carrier.rstrip(b'\n') + b'\n' * edge, 'C', cd, {'kind': 'matrix'}))
+    # enumerated C++ containers x eat_blanks_* together with every blank-line count option (value 3) that is not documented to override
+    # them (nl_inside_namespace and nl_inside_empty_func are): "eat_blanks_* leave no blank line next to the brace"
+    from vf import gen_cpp
+    reg = registry.by_name()
+    count_opts = sorted(k for k, o in reg.items() if k.startswith('nl_') and o['type'] == 'num' and
+                        k not in ('nl_max', 'nl_start_of_file_min', 'nl_end_of_file_min', 'nl_max_blank_in_func', 'nl_inside_namespace', 'nl_inside_empty_func'))
+    ctx.extra['container_count_options'] = len(count_opts)
+    shapes = list(gen_cpp.container_shapes())
+    for si, (name, src) in enumerate(shapes):
+        for oi, k in enumerate(count_opts):
+            if quick and (si + oi) % 4:
+                continue
+            cd = {'eat_blanks_after_open_brace': 'true', 'eat_blanks_before_close_brace': 'true', k: '3'}
+            cases.append(family.Case(src.encode(), 'CPP', cd, {'kind': 'container-shape', 'file': 'shape:' + name}))
     raw = family.explore(ctx, judge, cases)
     raw += family.hyp_explore(ctx, judge, make_strategy, to_case, shards=16, examples=(150 if quick else 5000))
     family.triage(ctx, judge, raw)
